@@ -221,7 +221,8 @@ def configs(tier):
         for perm in [(0, 1, 2), (2, 0, 1)]:
             out.append(dict(case='balanced', method=m, pattern=(0, 1, 2), n_chan=P, perm=perm, labkind='str'))
         # definition, unbalanced repetition counts, both weightings
-        pats = [(0, 1, 0), (0, 0, 1, 1), (1, 0, 1, 2)] if quick else [p for n in (3, 4, 5) for p in rgs(n, 2, 3)]
+        pats = [(0, 1, 0), (0, 0, 1, 1), (1, 0, 1, 2)] if quick else \
+            [p for n in ((3, 4) if m == 'correlation' else (3, 4, 5)) for p in rgs(n, 2, 3)]     # correlation, 5 obs: z3 unknown
         for pat in pats:
             for wgt in ['number', 'equal']:
                 out.append(dict(case='definition', method=m, pattern=pat, n_chan=P, weighting=wgt, labkind='intgap'))
